@@ -20,7 +20,15 @@ def full(cfg):
 
 def chain_data(cfg):
     c = full(cfg)
-    return oracle.make_data(c["n"], dims=c["dims"], grid=c["grid"], kind=c["data"], seed=c["seed"], outlier_prob=c["outlier_prob"])
+    data = oracle.make_data(c["n"], dims=c["dims"], grid=c["grid"], kind=c["data"], seed=c["seed"], outlier_prob=0.0)
+    # outlier prior terms exactly as load_data computes them (incl. the boundary value 1.0)
+    import numpy as np
+    from phyclone.data.pyclone import compute_outlier_prob
+
+    with np.errstate(divide="ignore"):
+        for d in data:
+            d.outlier_prob, d.outlier_prob_not = compute_outlier_prob(c["outlier_prob"], 1)
+    return data
 
 
 def run_chain(cfg, rng, record=None):
